@@ -40,7 +40,7 @@ func prepareShort(idx int) (*prepared, error) {
 	rng := lib.Rng("C05/script", uint64(idx))
 	newState := idx%2 == 1
 	nops := 10 + rng.IntN(8)
-	s, err := genScript(rng, newState, 0, nops, idx%5 == 2)
+	s, err := genScript(rng, newState, 0, nops, idx%5 == 2, false)
 	if err != nil {
 		return nil, err
 	}
